@@ -160,11 +160,14 @@ func keepFile(name string) bool {
 		// META-INF/ itself gets updated
 		return false
 	}
-	if path.Dir(name)+"/" != metaInf {
+	// signature-related files are found the way the JDK finds them: by the
+	// spelling of the name, without regard to letter case
+	name = strings.ToUpper(name)
+	if !strings.HasPrefix(name, metaInf) || strings.Contains(name[len(metaInf):], "/") {
 		// everything not an immediate child of META-INF/ is kept
 		return true
 	}
-	name = path.Base(name)
+	name = name[len(metaInf):]
 	switch {
 	case strings.HasPrefix(name, "SIG-"):
 		// delete all old signatures
@@ -177,7 +180,7 @@ func keepFile(name string) bool {
 	case ".SF":
 		// delete all old signatures
 		return false
-	case ".RSA", ".DSA", ".EC", ".SIG":
+	case ".RSA", ".DSA", ".EC":
 		return false
 	default:
 		// all other META-INF/ files are kept
